@@ -158,7 +158,7 @@ func genC15(seed uint64, idx int) c15Data {
 func c15viol(d *c15Data, class, format string, args ...any) *kernel.Violation {
 	sc := &d.Scenario
 	return &kernel.Violation{Property: "C15", Class: class, Case: kernel.NewCase("C15", d.Batch, d),
-		Detail: fmt.Sprintf("batch=%s argv=%q\nstdin=%q\nplan=%s fault=%s@%d write_fail=%d\n", d.Batch, sc.argv(), kernel.Short2(sc.Stdin, 400), sc.PlanClass, sc.Plan.Fault, sc.Plan.FaultAt, sc.WriteFail) + fmt.Sprintf(format, args...)}
+		Detail: fmt.Sprintf("batch=%s argv=%q\nstdin=%q\nplan=%s fault=%s@%d write_fail=%d\n", d.Batch, sc.argvForDisplay(), kernel.Short2(sc.Stdin, 400), sc.PlanClass, sc.Plan.Fault, sc.Plan.FaultAt, sc.WriteFail) + fmt.Sprintf(format, args...)}
 }
 
 func countDiagnostics(stderr string) int {
@@ -321,7 +321,7 @@ func (C15) RunUnit(env *kernel.Env, unit int) {
 			out.Violate(v)
 		}
 		if out.WantSample() && k == 0 {
-			out.Sample(map[string]any{"argv": d.Scenario.argv(), "stdin": kernel.Short2(d.Scenario.Stdin, 200), "batch": d.Batch, "plan": d.Scenario.PlanClass, "exit": res.Exit, "stdout": kernel.Short2(res.Stdout, 120)})
+			out.Sample(map[string]any{"argv": d.Scenario.argvForDisplay(), "stdin": kernel.Short2(d.Scenario.Stdin, 200), "batch": d.Batch, "plan": d.Scenario.PlanClass, "exit": res.Exit, "stdout": kernel.Short2(res.Stdout, 120)})
 		}
 	}
 }
